@@ -7,9 +7,11 @@ import (
 
 	"seehuhn.de/go/postscript/funit"
 	"seehuhn.de/go/sfnt/glyph"
+	"seehuhn.de/go/sfnt/opentype/anchor"
 	"seehuhn.de/go/sfnt/opentype/classdef"
 	"seehuhn.de/go/sfnt/opentype/coverage"
 	"seehuhn.de/go/sfnt/opentype/gtab"
+	"seehuhn.de/go/sfnt/opentype/markarray"
 	"seehuhn.de/go/sfnt/opentype/gtab/builder"
 	"seehuhn.de/go/sfnt/verifharness/vlib"
 )
@@ -411,6 +413,67 @@ func genChainLookup(r *vlib.Rand, n int) *gtab.LookupTable {
 		case 2:
 			l.Subtables = append(l.Subtables, &gtab.ChainedSeqContext3{Backtrack: sets(0, 2), Input: sets(1, 3), Lookahead: sets(0, 2), Actions: genActs(r)})
 		}
+	}
+	return l
+}
+
+func genGpos3Lookup(r *vlib.Rand, n int) *gtab.LookupTable {
+	l := &gtab.LookupTable{Meta: &gtab.LookupMetaInfo{LookupType: 3, LookupFlags: vlib.Pick(r, flagSets)}}
+	an := func() anchor.Table {
+		return anchor.Table{X: funit.Int16(vlib.Pick(r, int16s)), Y: funit.Int16(vlib.Pick(r, int16s))}
+	}
+	for k := r.Range(1, 3); k > 0; k-- {
+		cov := subset(r, n, 0, r.Bool())
+		st := &gtab.Gpos3_1{Cov: covFromList(cov)}
+		for range cov {
+			st.Records = append(st.Records, gtab.EntryExitRecord{Entry: an(), Exit: an()})
+		}
+		l.Subtables = append(l.Subtables, st)
+	}
+	return l
+}
+
+func genGpos4Lookup(r *vlib.Rand, n int) *gtab.LookupTable {
+	l := &gtab.LookupTable{Meta: &gtab.LookupMetaInfo{LookupType: 4, LookupFlags: vlib.Pick(r, flagSets)}}
+	an := func() anchor.Table {
+		return anchor.Table{X: funit.Int16(vlib.Pick(r, int16s)), Y: funit.Int16(vlib.Pick(r, int16s))}
+	}
+	for k := r.Range(1, 3); k > 0; k-- {
+		mc := subset(r, n, 0, r.Bool())
+		if len(mc) == 0 {
+			mc = []glyph.ID{glyph.ID(r.Intn(n))}
+		}
+		nc := r.Range(1, min(3, len(mc)))
+		st := &gtab.Gpos4_1{MarkCov: covFromList(mc)}
+		// every class 0..nc-1 is used at least once
+		cls := make([]int, len(mc))
+		for i := range cls {
+			if i < nc {
+				cls[i] = i
+			} else {
+				cls[i] = r.Intn(nc)
+			}
+		}
+		for i := len(cls) - 1; i > 0; i-- {
+			j := r.Intn(i + 1)
+			cls[i], cls[j] = cls[j], cls[i]
+		}
+		for i := range mc {
+			st.MarkArray = append(st.MarkArray, markarray.Record{Class: uint16(cls[i]), Table: an()})
+		}
+		var bc []glyph.ID
+		if !r.Chance(1, 6) {
+			bc = subset(r, n, 0, r.Bool())
+		}
+		st.BaseCov = covFromList(bc)
+		for range bc {
+			row := make([]anchor.Table, nc)
+			for j := range row {
+				row[j] = an()
+			}
+			st.BaseArray = append(st.BaseArray, row)
+		}
+		l.Subtables = append(l.Subtables, st)
 	}
 	return l
 }
@@ -987,7 +1050,7 @@ func (g *textGen) lookup(ty string) {
 }
 
 var allTypes = []string{"GSUB1", "GSUB2", "GSUB3", "GSUB4", "GSUB5", "GSUB6", "GPOS1", "GPOS2", "GPOS3", "GPOS4"}
-var modelTypes = []string{"GSUB1", "GSUB2", "GSUB3", "GSUB4", "GSUB5", "GSUB6", "GPOS1"}
+var modelTypes = []string{"GSUB1", "GSUB2", "GSUB3", "GSUB4", "GSUB5", "GSUB6", "GPOS1", "GPOS3", "GPOS4"}
 
 func genText(r *vlib.Rand, fs *fontSpec, types []string, table string) string {
 	g := &textGen{r: r, fs: fs, valid: !r.Chance(1, 6)}
